@@ -814,3 +814,21 @@ Proof. intros Hi Hj. destruct (idx_in_bounds p l i Hi) as (a & ->). destruct (id
 (* for i := … ; i < len(x); … { x[i] } and for i := len(x)-1; i >= 0; i-- { x[i] } *)
 Lemma loop_index_in_bounds {A} p (l : list A) i : 0 <= i < lenZ l -> exists a, idx p l i = Ok a.
 Proof. apply idx_in_bounds. Qed.
+
+(* the removal completes AFTER the store was read: the late reads of the current keystore *)
+Definition env_sel : env :=
+  {| e_rest_ok := true; e_decode_tx := fun _ => Some [(2%N, 0)]; e_sign_ok := true; e_selected := [(2%N, 0)];
+     e_next_addr := Some [tt]; e_history_batches := [] |}.
+Lemma selected_ok_sel w : st w = store0 -> selected_ok w env_sel.
+Proof. intros E h i [H|[]]. inversion H; subst. rewrite E. cbn. eauto. Qed.
+
+Theorem as_found_refuted_late_reads :
+  wf w_race3 /\ selected_ok w_race3 env_sel /\
+  handle id_trim as_found env_sel w_race3 (RAutoCreateTransaction one_mass 0 [] [] []) = Panic PFindMaNil /\
+  handle id_trim as_found env_sel w_race3 req_sign_meta = Panic PSignScriptCurNil /\
+  handle id_trim all_fixed env_sel w_race3 (RAutoCreateTransaction one_mass 0 [] [] []) = Err ErrBelow /\
+  handle id_trim all_fixed env_sel w_race3 req_sign_meta = Err ErrBelow.
+Proof.
+  split; [exact wf_store0|]. split; [apply selected_ok_sel; reflexivity|].
+  repeat split; vm_compute; reflexivity.
+Qed.
